@@ -52,7 +52,7 @@ func profilesFor(id string) []*Profile {
 		return []*Profile{p}
 	case "C02", "C04", "C09", "C06", "C07":
 		var out []*Profile
-		for i, fam := range [][]string{famSib, famNest, famOdd} {
+		for i, fam := range [][]string{famSib, famNest, famOdd, famExt} {
 			p := baseProfile(fmt.Sprintf("stage%d", i))
 			p.Paths = fam
 			withW(p, "updateref", 0, "config", 0, "settz", 0)
@@ -80,7 +80,7 @@ func profilesFor(id string) []*Profile {
 		return []*Profile{p, q}
 	case "C05":
 		var out []*Profile
-		for i, fam := range [][]string{famOdd, famNest, famSib} {
+		for i, fam := range [][]string{famOdd, famNest, famSib, famExt} {
 			p := baseProfile(fmt.Sprintf("tree%d", i))
 			p.Paths = fam
 			withW(p, "commit", 14, "reset", 12, "rm", 8, "updateref", 0, "config", 0)
@@ -123,14 +123,19 @@ func profilesFor(id string) []*Profile {
 		return []*Profile{p}
 	case "C13", "C17":
 		p := baseProfile("worktree")
-		p.Paths = append(append([]string{}, famIgn...), "d/e/f/g", "d/e/h", "lib/a", "lib.go")
+		p.Paths = append(append([]string{}, famIgn...), "d/e/f/g", "d/e/h", "lib/a", "lib.go", "pkg.tar.gz", "dist/p-1.tar.gz", "x.min.js")
+		p.Ignore = [][]string{{}, {"build/"}, {"*.exe"}, {"build/", "*.exe"}, {"*.tar.gz"}, {"*.min.js", "build/"}}
 		withW(p, "write", 18, "rewrite", 6, "touch", 6, "remove", 8, "rmdir", 5, "ignore", 5, "add", 14, "mkdir", 2, "updateref", 0, "config", 0)
 		p.Obs = ObsSpec{Status: true, Ls: true}
+		r := baseProfile("dirs")
+		r.Paths = append(append([]string{}, famExt...), famSib...)
+		withW(r, "write", 18, "rewrite", 4, "touch", 3, "remove", 8, "rmdir", 9, "add", 16, "commit", 6, "updateref", 0, "config", 0)
+		r.Obs = ObsSpec{Status: true, Ls: true}
 		q := baseProfile("noignore")
 		q.Paths = append(append([]string{}, famIgn...), famOdd...)
 		withW(q, "write", 18, "rewrite", 6, "touch", 6, "remove", 8, "rmdir", 5, "add", 14)
 		q.Obs = ObsSpec{Status: true, Ls: true}
-		return []*Profile{p, q}
+		return []*Profile{p, q, r}
 	case "C14":
 		p := baseProfile("log")
 		p.Paths = []string{"a", "b"}
@@ -142,7 +147,7 @@ func profilesFor(id string) []*Profile {
 	case "C18":
 		p := baseProfile("cli")
 		p.Hostile = 25
-		p.Paths = append(append([]string{}, famOdd...), "a", "d/x", "d(1/x", "d[/y")
+		p.Paths = append(append(append([]string{}, famOdd...), "a", "d/x", "d(1/x", "d[/y"), famExt...)
 		p.NoInitCfg = true
 		withW(p, "raw", 30, "config", 4)
 		p.Obs = allObs()
@@ -313,7 +318,7 @@ func runReplayFS(rf *ReplayFile) int {
 
 // modelJobs: behaviours generated by TLC from the bounded instances of the operational model.
 var modelFor = map[string][]string{
-	"C02": {"Stage"}, "C04": {"Stage"}, "C05": {"Stage"}, "C06": {"Stage"}, "C07": {"Stage"}, "C09": {"Stage"}, "C13": {"Stage"}, "C17": {"Stage"},
+	"C02": {"Stage", "Dir"}, "C04": {"Stage", "Dir"}, "C05": {"Stage"}, "C06": {"Dir", "Stage"}, "C07": {"Stage"}, "C09": {"Dir", "Stage"}, "C13": {"Dir", "Stage"}, "C17": {"Stage"},
 	"C03": {"Refs", "Stage"}, "C08": {"Refs", "Stage"}, "C10": {"Refs"}, "C11": {"Refs"}, "C14": {"Refs"}, "C18": {"Refs", "Stage"}, "C01": {"Stage"},
 }
 
